@@ -154,7 +154,9 @@ func c17History(c *ctx, t typeSpec, ops []setOp, how string) {
 		}
 	} else {
 		// both implementations expose the same type name, attributes and relationships
-		if a, b := oStruct(w), oStruct(t.newSoft()); a != b && key == "" {
+		ts := t
+		ts.noFrom = false // the struct's relationships always carry the type's name
+		if a, b := oStruct(w), oStruct(ts.newSoft()); a != b && key == "" {
 			key, detail = "implementations-differ-in-structure", fmt.Sprintf("wrapper %s, soft %s", a, b)
 		}
 		// mirror updates
@@ -423,24 +425,6 @@ func c17Equal(c *ctx, a, b builtRes, how string) {
 		return
 	}
 	// what the two resources hold is read BEFORE the helpers run
-	names := sameNameSets(ra, rb)
-	differ := ""
-	if ra.GetType().Name != rb.GetType().Name {
-		differ = "type name"
-	} else if !names {
-		differ = "field names"
-	} else {
-		for k := range ra.Attrs() {
-			if !sameValue(ra.Get(k), rb.Get(k)) {
-				differ = "value of " + k
-			}
-		}
-		for k := range ra.Rels() {
-			if !sameValue(ra.Get(k), rb.Get(k)) {
-				differ = "value of " + k
-			}
-		}
-	}
 	allFields := func(r jsonapi.Resource) []string {
 		fs := []string{"id"}
 		for k := range r.Attrs() {
@@ -452,7 +436,35 @@ func c17Equal(c *ctx, a, b builtRes, how string) {
 		sort.Strings(fs)
 		return fs
 	}
-	dumpA, dumpB := dumpRes(ra, allFields(ra)), dumpRes(rb, allFields(rb))
+	var names bool
+	var differ, dumpA, dumpB string
+	if p0, pv0 := guard(func() {
+		names = sameNameSets(ra, rb)
+		if ra.GetType().Name != rb.GetType().Name {
+			differ = "type name"
+		} else if !names {
+			differ = "field names"
+		} else {
+			for k := range ra.Attrs() {
+				if !sameValue(ra.Get(k), rb.Get(k)) {
+					differ = "value of " + k
+				}
+			}
+			for k := range ra.Rels() {
+				if !sameValue(ra.Get(k), rb.Get(k)) {
+					differ = "value of " + k
+				}
+			}
+		}
+		dumpA, dumpB = dumpRes(ra, allFields(ra)), dumpRes(rb, allFields(rb))
+	}); p0 {
+		// a field the resource lists cannot be read
+		ga, opsa := a.gallina()
+		gb, opsb := b.gallina()
+		k := c.add("equal", how, "listed-field-unreadable", false, fmt.Sprintf("(run_equal %s %s %s %s)", ga, opsa, gb, opsb), oPanic(), "listed-field-unreadable", fmt.Sprint(pv0))
+		k.Replay = how
+		return
+	}
 	o1, e1, p1 := boolRes(func() bool { return jsonapi.Equal(ra, rb) })
 	o2, e2, p2 := boolRes(func() bool { return jsonapi.Equal(rb, ra) })
 	o3, e3, p3 := boolRes(func() bool { return jsonapi.EqualStrict(ra, rb) })
@@ -502,7 +514,7 @@ func c17Equal(c *ctx, a, b builtRes, how string) {
 }
 
 func cloneSpec(t typeSpec) typeSpec {
-	return typeSpec{name: t.name, fields: append([]fieldSpec{}, t.fields...)}
+	return typeSpec{name: t.name, fields: append([]fieldSpec{}, t.fields...), idLast: t.idLast, noFrom: t.noFrom}
 }
 
 func runC17Equal(c *ctx) {
